@@ -34,6 +34,7 @@ package main
 
 import (
 	"fmt"
+	"os"
 	"strings"
 	"sync"
 	"time"
@@ -184,6 +185,82 @@ func c20StableQuery(rng *RNG) c20SQ {
 	return c20SQ{"stable_" + strings.Join(tags, "_"), sql, join, hidden, timed}
 }
 
+// The WHOLE-ROW ANALYTIC part of the family (kinds stable_star_*): a generated window query of the family
+// plus one select item that is a multi-column / whole-row analytic function whose column argument is `*`:
+// changed_cols(prefix, ignoreNull, *) (lone star, star next to a named column or an aggregate),
+// had_changed(ignoreNull, *), with and without OVER (PARTITION BY group column).  On the window path these
+// functions are evaluated on the aggregated RESULT row - the map that is handed to the sinks next - and
+// their state (the baseline the next window is compared with) lives as long as the instance: a state that
+// keeps the row it was shown instead of a copy writes into a row a sink already holds when the next window
+// of the same partition fires.  Few group values and 16 rows, so that every partition sees several windows.
+var c20StarItems = []string{
+	"changed_cols('d_', true, *)",
+	"changed_cols('d_', true, *)",
+	"changed_cols('c_', false, *)",
+	"changed_cols('', true, *)",
+	"had_changed(true, *) AS hc",
+	"had_changed(false, *) AS hc",
+	"changed_cols('d_', true, *) OVER (PARTITION BY %k)",
+	"had_changed(true, *) OVER (PARTITION BY %k) AS hc",
+	"changed_cols('e_', true, %g, *)",
+	"changed_cols('e_', true, *, %g)",
+	"changed_cols('f_', true, %g)",
+}
+
+func c20StableStarQuery(rng *RNG) c20SQ {
+	q := c20StableQuery(rng)
+	for t := 0; t < 6 && (q.timed && rng.Intn(4) != 0 || strings.Contains(q.kind, "_distinct")); t++ {
+		q = c20StableQuery(rng)
+	}
+	item := rng.Pick(c20StarItems)
+	// %k: a group column of the result row (if any), %a: a selected aggregate alias, %g: an inline aggregate
+	key := ""
+	for _, c := range []struct{ tag, col string }{{"fnkey", "u"}, {"twokeys", "dev"}, {"joinkey", "mc"}, {"plainkey", "dev"}} {
+		if strings.Contains(q.kind, "_"+c.tag) {
+			key = c.col
+		}
+	}
+	if strings.Contains(item, "%k") && key == "" {
+		item = strings.Replace(item, " OVER (PARTITION BY %k)", "", 1)
+	}
+	alias, call := "", ""
+	for _, a := range c20StableAggs {
+		if strings.Contains(q.sql, a.call+" AS "+a.alias) {
+			alias, call = a.alias, a.call
+			break
+		}
+	}
+	item = strings.NewReplacer("%k", key, "%a", alias, "%g", call).Replace(item)
+	tag := "lonestar"
+	switch {
+	case strings.Contains(item, "%") || alias == "":
+		item = "changed_cols('d_', true, *)"
+	case !strings.Contains(item, "*"):
+		tag = "nostar"
+	case strings.Contains(item, "e_"):
+		tag = "starandcolumn"
+	}
+	if strings.HasPrefix(item, "had_changed") {
+		tag += "_hadchanged"
+	} else {
+		tag += "_changedcols"
+	}
+	if strings.Contains(item, "OVER") {
+		tag += "_over"
+	}
+	q.sql = strings.Replace(q.sql, " FROM stream", ", "+item+" FROM stream", 1)
+	q.kind = "stable_star_" + tag + strings.TrimPrefix(q.kind, "stable")
+	return q
+}
+
+// rows of the whole-row analytic part: two group values only (several windows per partition)
+func c20StableStarRow(rng *RNG, i int) map[string]any {
+	r := c20StableRow(rng, i)
+	r["dev"] = []string{"a", "Cc"}[rng.Intn(2)]
+	r["k"] = rng.Intn(2)
+	return r
+}
+
 func c20StableRow(rng *RNG, i int) map[string]any {
 	return map[string]any{
 		"id": i, "v": rng.Intn(40), "dev": []string{"a", "b", "Cc"}[rng.Intn(3)], "k": rng.Intn(3),
@@ -228,6 +305,10 @@ func (c *c20Stab) n() int { c.mu.Lock(); defer c.mu.Unlock(); return len(c.batch
 
 // c20RunStable: returns (accepted by the engine, batches delivered)
 func c20RunStable(rng *RNG, q c20SQ, o *Out) (bool, int) {
+	return c20RunStableRows(rng, q, o, 3, c20StableRow)
+}
+
+func c20RunStableRows(rng *RNG, q c20SQ, o *Out, bursts int, mkRow func(*RNG, int) map[string]any) (bool, int) {
 	s, err := c20Open(q.sql, q.join)
 	if err != nil {
 		return false, 0
@@ -235,11 +316,11 @@ func c20RunStable(rng *RNG, q c20SQ, o *Out) (bool, int) {
 	st := &c20Stab{}
 	s.AddSyncSink(st.sink)
 	id := 0
-	for burst := 0; burst < 3; burst++ {
+	for burst := 0; burst < bursts; burst++ {
 		before := st.n()
 		for j := 0; j < 4; j++ {
 			id++
-			s.Emit(c20StableRow(rng, id))
+			s.Emit(mkRow(rng, id))
 		}
 		if q.timed {
 			time.Sleep(45 * time.Millisecond)
@@ -300,6 +381,39 @@ func c20RunStableFamily(rng *RNG, tier string, o *Out) error {
 				o.Count("S_stable_" + t)
 			}
 		}
+	}
+	// whole-row analytic part
+	nStar := 18
+	if tier == "thorough" {
+		nStar = 150
+	}
+	starAccepted, starMulti, loneMulti := 0, 0, 0
+	var starRejected []string
+	for i := 0; i < nStar; i++ {
+		q := c20StableStarQuery(rng)
+		ok, nb := c20RunStableRows(rng, q, o, 4, c20StableStarRow)
+		if !ok {
+			o.Count("S_stable_star_rejected_sql")
+			if os.Getenv("VERIF_C20_TIMING") != "" {
+				fmt.Fprintf(os.Stderr, "c20 star query rejected: %s\n", q.sql)
+			}
+			if len(starRejected) < 3 {
+				starRejected = append(starRejected, q.sql)
+			}
+			continue
+		}
+		starAccepted++
+		o.Count("S_stable_star_window_query")
+		if nb > 2 {
+			starMulti++
+			if strings.Contains(q.kind, "lonestar") {
+				loneMulti++
+				o.Count("S_stable_star_lone_star_three_batches")
+			}
+		}
+	}
+	if starAccepted < nStar*2/3 || starMulti < nStar/3 || loneMulti < nStar/6 {
+		return fmt.Errorf("sink-row-stability family, whole-row analytic part: %d of %d generated queries accepted (e.g. rejected %q), %d delivered three batches or more, %d of them with a lone '*'", starAccepted, nStar, starRejected, starMulti, loneMulti)
 	}
 	o.Dist["S_stable_hidden_having_delivered"] = hiddenDelivered
 	o.Dist["S_stable_several_batches"] = multi
